@@ -336,7 +336,10 @@ def run(rep, tier, seed, only=None):
         worlds_where_selection_discarded_reads=st.extra.get("selection_cut", 0),
         distinct_outcomes=len(st.outcomes),
     )
-    rep.assumptions += ["reads used for phasing = the reads the trace hook reports as handed to the solver (cross-checked against --output-read-list)"]
+    rep.assumptions += [
+        "reads used for phasing = the reads the trace hook reports as handed to the solver (cross-checked against --output-read-list)",
+        "with --distrust-genotypes the reads carry every variant: a read links the variants that come out phased in its own sample, and the pedigree master block is formed by the positions at which some family member is homozygous in the output",
+    ]
 
 
 def replay(v):
